@@ -51,6 +51,16 @@ static u8_t *getArgsKey(const char *arg)
     return keyout;
 }
 /*
+mode_number:解析 --cmode/--hmode 的数值
+arg:参数
+return:数值; 超出 int 范围的数值一律视为非法(-1), 不能被截断成合法的模式号
+*/
+static int mode_number(const char *arg)
+{
+    long v = strtol(arg, NULL, 10);
+    return (v == (long)(int)v) ? (int)v : -1;
+}
+/*
 getRandomBuffer:获取随机的缓冲数组
 r_buf:缓冲数组地址
 */
@@ -164,7 +174,7 @@ bool parseOpts(char c, vpak_t *res)
     case 1:
         if (res->ctype == -1)
         {
-            tnum = atoi(optarg);
+            tnum = mode_number(optarg);
             if (!check_ctype(tnum))
             {
                 strlog("Error :", "Wrong ctype");
@@ -182,7 +192,7 @@ bool parseOpts(char c, vpak_t *res)
     case 2:
         if (res->htype == -1)
         {
-            tnum = atoi(optarg);
+            tnum = mode_number(optarg);
             if (!check_htype(tnum))
             {
                 strlog("Error :", "Wrong htype");
